@@ -321,6 +321,14 @@ class World:
     exec(src, ns)  # pylint: disable=exec-used
     obj = ns[name]
     obj.__module__ = module or 'gvprobe'
+    if d.get('deco'):
+      import functools
+      inner = obj
+
+      @functools.wraps(inner)
+      def passthrough(*args, **kwargs):       # somebody else's decorator, applied before registration
+        return inner(*args, **kwargs)
+      obj = passthrough
     allow = None if list(d['allow']) == ['*'] else list(d['allow'])
     deny = list(d['deny']) or None
     kwargs = dict(module=module or None, allowlist=allow, denylist=deny)
